@@ -33,9 +33,98 @@ def register():
     G.add_attr(CobaContext, '_search_paths', list)
     G.add_attr(coba.random, '_random', lambda: coba.random.CobaRandom(20240229))   # a fresh interpreter is time-seeded
     G.add_attr(UniqueKey, 'N', lambda: 0)
+    import coba, os
+    audit(os.path.dirname(os.path.dirname(os.path.abspath(coba.__file__))))
     _registered = True
 
 
 SWAPPED = {('coba.context.core', 'CobaContext', a) for a in
            ('_api_keys', '_cacher', '_logger', '_experiment', '_store', '_learning_info', '_config_backing', '_search_paths')} | \
           {('coba.random', None, '_random'), ('coba.pipes.multiprocessing', 'UniqueKey', 'N')}
+
+
+# ---------------------------------------------------------------- audit: no unknown process-global state
+# (module, owner, attribute) written at run time somewhere in coba.  Everything here is either swapped per fake pid
+# (CobaContext.*, coba.random._random, UniqueKey.N) or reviewed as harmless for the simulation (constant after import).
+_AUDIT_KNOWN = {
+    ('coba.context.core', 'cls', a) for a in ('_api_keys', '_cacher', '_config_backing', '_experiment', '_learning_info', '_logger', '_search_paths', '_store')
+} | {
+    ('coba.environments.core', 'CobaContext', 'cacher'), ('coba.environments.core', 'CobaContext', 'logger'),
+    ('coba.experiments.core', 'CobaContext', 'logger'), ('coba.experiments.core', 'CobaContext', 'store[...]'),
+    ('coba.multiprocessing', 'CobaContext', 'cacher'), ('coba.multiprocessing', 'CobaContext', 'logger'), ('coba.multiprocessing', 'CobaContext', 'store'),
+    ('coba.results.core', 'CobaContext', 'logger'),
+    ('coba.pipes.multiprocessing', 'UniqueKey', 'N'),
+    ('coba.random', 'global', '_random'),
+    # reviewed, not swapped: filled once at import / first use with values that do not depend on the run
+    ('coba.registry', 'cls', '_endpoints_loaded'), ('coba.registry', 'cls', '_registry'), ('coba.registry', 'cls', '_registry[...]'),
+    ('coba.registry', 'cls', '_setstate'), ('coba.environments.filters', 'cls', 'Tensor'), ('coba.results.core', 'cls', '_instance'),
+}
+
+
+def audit(repo):
+    """Every `global` statement and every run-time assignment to a class / module attribute in coba is located (ast).
+    Known ones are swapped per fake pid or reviewed; an UNKNOWN one is new process-global state: it is isolated
+    automatically (swapped per fake pid, a child starts from a deep copy of the import-time value); if that is not
+    possible the simulation would silently share it between processes -> harness error."""
+    import ast, os, warnings, importlib, copy
+    found = {}
+    root = os.path.join(repo, 'coba')
+
+    def visit(node, mod, cls):
+        for child in ast.iter_child_nodes(node):
+            if isinstance(child, ast.ClassDef):
+                visit(child, mod, child.name)
+                continue
+            if isinstance(child, ast.Global):
+                for n in child.names: found.setdefault((mod, 'global', n), None)
+            tg = []
+            if isinstance(child, ast.Assign): tg = child.targets
+            elif isinstance(child, (ast.AugAssign, ast.AnnAssign)): tg = [child.target]
+            elif isinstance(child, ast.Delete): tg = child.targets
+            for t in tg:
+                sub = isinstance(t, ast.Subscript)
+                a = t.value if sub else t
+                if isinstance(a, ast.Attribute) and isinstance(a.value, ast.Name):
+                    nm = a.value.id
+                    if nm == 'cls' or (nm[0].isupper() and nm != 'T'):
+                        found.setdefault((mod, nm, a.attr + ('[...]' if sub else '')), cls)
+            visit(child, mod, cls)
+
+    for dp, dn, fn in os.walk(root):
+        if 'tests' in dp.split(os.sep): continue
+        for f in fn:
+            if not f.endswith('.py'): continue
+            p = os.path.join(dp, f)
+            mod = os.path.relpath(p, repo)[:-3].replace(os.sep, '.')
+            if mod.endswith('.__init__'): mod = mod[:-9]
+            with warnings.catch_warnings():
+                warnings.simplefilter('ignore')
+                tree = ast.parse(open(p, encoding='utf-8').read())
+            # only writes inside functions are run-time writes
+            for node in ast.walk(tree):
+                if isinstance(node, ast.ClassDef):
+                    for fnode in node.body:
+                        if isinstance(fnode, (ast.FunctionDef, ast.AsyncFunctionDef)): visit(fnode, mod, node.name)
+            for fnode in tree.body:
+                if isinstance(fnode, (ast.FunctionDef, ast.AsyncFunctionDef)): visit(fnode, mod, None)
+    unknown = sorted(k for k in found if k not in _AUDIT_KNOWN)
+    G = sched.PIDGLOBALS
+    for mod, owner, attr in unknown:
+        try:
+            m = importlib.import_module(mod)
+            name = attr.replace('[...]', '')
+            if owner == 'global': target = m
+            elif owner == 'cls': target = getattr(m, found[(mod, owner, attr)])
+            else: target = getattr(m, owner)
+            if name in target.__dict__:
+                snap = copy.deepcopy(target.__dict__[name])
+                G.add_attr(target, name, lambda snap=snap: copy.deepcopy(snap))
+            else:
+                G.add_attr(target, name, lambda: G._MISSING)
+        except Exception as e:      # noqa
+            raise sched.SchedError(f'coba writes process-global state {(mod, owner, attr)} that the simulated process layer cannot isolate: {e!r}')
+    AUTO_ISOLATED[:] = unknown
+    return len(found)
+
+
+AUTO_ISOLATED = []
